@@ -38,6 +38,9 @@ CLAIMED = {
  'C16': dict(engine='symexec', technique='bounded symbolic execution of the real Cadence.add_signal/overwrite_times/slew_times/consolidate with symbolic start times and geometry, uninterpreted signal components; fault position enumerated (callback raising on frame k); bit-exact restoration decided in the delta model of binary64',
              text='For cadences of 1..3 (thorough 4) frames, whole or sub-selected by slice / index list, and the option sets plain / integrate path+time / integrate f + smearing / integrate path + smearing, z3 shows for all start times, contents and callbacks that each member receives exactly the single-frame signal at its own times shifted by its start relative to the (sub)cadence first frame, non-members are untouched, every time axis is the original afterwards -- also when path, t_profile or f_profile raises on frame k for every k -- and bit-for-bit in binary64; overwrite_times gives slew_times == t_slew; consolidation concatenates data with absolute times.',
              note='exact reals for signal values; delta model for ts restoration; frames <= 4', ref='DESIGN.md section 4 C16'),
+ 'C17': dict(engine='symexec', technique='bounded symbolic execution of the real get_slice / dedrift / integrate / spectrum / timeseries / from_data on symbolic data, symbolic integer slice bounds and a symbolic real drift rate (forked over rounded row offsets, completeness query); SMT decides data/axis registration and inherited attributes',
+             text='For shapes up to 3x5 (thorough 4x8), both orientations: for EVERY 0 <= l < r <= fchans the slice holds exactly columns l..r-1 of data and frequency axis; for EVERY real drift rate up to one channel beyond the limit (either sign, explicit or from metadata) row i is the parent row shifted by round(|d| i dt/df) towards the drift start, row 0 keeps its frequencies, width is fchans - max offset, rates leaving no channels raise ValueError and no others do, a linear path deviates by at most half a channel; integration equals per-column/row mean or sum and the wrappers carry the parent axis; all derived frames inherit orientation, resolutions, start time, source name, and are copies.',
+             note='de-drift on dyadic geometries; normalize=True outside; exact reals', ref='DESIGN.md section 4 C17'),
 }
 NA = {}
 
